@@ -28,7 +28,8 @@ type atom struct {
 	id      string
 	actions []action
 	class   string   // type class (IDL expression) or hygiene class
-	leaves  []string // scalar leaves of the type under test (type atoms)
+	parts   []string // proper sub-expressions of the type under test (for blame)
+	ctor    string   // outermost constructor of the type under test: Vec | Map | Tuple | ""
 	hygiene bool
 	decls   []string // struct / enum declarations needed
 	itfName string   // "" = default interface
@@ -58,15 +59,26 @@ var declText = map[string]string{
 var declDeps = map[string][]string{"Nest": {"Pt"}, "Cont": {"Pt"}, "Deep": {"Nest", "Pt"}}
 
 type typeSpec struct {
-	expr   string
-	leaves []string
-	decls  []string
-	depth  int
+	expr  string
+	parts []string // proper sub-expressions (member types for structs), transitively
+	decls []string
+	depth int
+	ctor  string
 }
 
-func scalarType(s string) typeSpec { return typeSpec{expr: s, leaves: []string{s}} }
+func scalarType(s string) typeSpec { return typeSpec{expr: s} }
 
-func structLeaves(name string) []string {
+// sub returns t and its parts.
+func sub(ts ...typeSpec) []string {
+	var out []string
+	for _, t := range ts {
+		out = append(out, t.expr)
+		out = append(out, t.parts...)
+	}
+	return uniqStr(out)
+}
+
+func structParts(name string) []string {
 	switch name {
 	case "Pt":
 		return []string{"int32", "str"}
@@ -75,37 +87,36 @@ func structLeaves(name string) []string {
 	case "Sw":
 		return []string{"bool", "int16", "uint16", "int32", "uint32", "int64", "uint64", "float32", "float64", "str", "any"}
 	case "Nest":
-		return []string{"int32", "str"}
-	case "Cont", "Deep":
-		return []string{"int32", "str"}
-	case "En":
-		return []string{"enum"}
+		return []string{"Pt", "int32", "str"}
+	case "Cont":
+		return []string{"Vec<int32>", "Map<str,int32>", "Vec<Pt>", "Map<str,Pt>", "Pt", "int32", "str"}
+	case "Deep":
+		return []string{"Nest", "Vec<Nest>", "Pt", "int32", "str"}
 	}
-	return []string{"int32"}
+	return nil
 }
 
 func declType(name string) typeSpec {
 	d := append([]string{name}, declDeps[name]...)
-	return typeSpec{expr: name, leaves: structLeaves(name), decls: d, depth: 1}
+	return typeSpec{expr: name, parts: structParts(name), decls: d, depth: 1}
 }
 
 func vec(t typeSpec) typeSpec {
-	return typeSpec{expr: "Vec<" + t.expr + ">", leaves: t.leaves, decls: t.decls, depth: t.depth + 1}
+	return typeSpec{expr: "Vec<" + t.expr + ">", parts: sub(t), decls: t.decls, depth: t.depth + 1, ctor: "Vec"}
 }
 func mapOf(k, v typeSpec) typeSpec {
-	return typeSpec{expr: "Map<" + k.expr + "," + v.expr + ">", leaves: uniqStr(append(append([]string{}, k.leaves...), v.leaves...)),
-		decls: uniqStr(append(append([]string{}, k.decls...), v.decls...)), depth: max(k.depth, v.depth) + 1}
+	return typeSpec{expr: "Map<" + k.expr + "," + v.expr + ">", parts: sub(k, v),
+		decls: uniqStr(append(append([]string{}, k.decls...), v.decls...)), depth: max(k.depth, v.depth) + 1, ctor: "Map"}
 }
 func tuple(ts ...typeSpec) typeSpec {
-	var ex, lv, dc []string
+	var ex, dc []string
 	d := 0
 	for _, t := range ts {
 		ex = append(ex, t.expr)
-		lv = append(lv, t.leaves...)
 		dc = append(dc, t.decls...)
 		d = max(d, t.depth)
 	}
-	return typeSpec{expr: "Tuple<" + strings.Join(ex, ",") + ">", leaves: uniqStr(lv), decls: uniqStr(dc), depth: d + 1}
+	return typeSpec{expr: "Tuple<" + strings.Join(ex, ",") + ">", parts: sub(ts...), decls: uniqStr(dc), depth: d + 1, ctor: "Tuple"}
 }
 
 func uniqStr(xs []string) []string {
@@ -124,8 +135,9 @@ func uniqStr(xs []string) []string {
 var mapKeys = []string{"bool", "int8", "uint8", "int16", "uint16", "int32", "uint32", "int64", "uint64", "float32", "float64", "str"}
 
 // typeUniverse: every scalar; depth 1: Vec<s>, Map<str,s>, Map<k,int32>,
-// tuples, structs, enum; depth 2 (thorough): containers of depth-1 types over
-// the reduced atom set {int32, str, bool, any, uint8} and of structs.
+// tuples, structs, enum; depth 2 (thorough): Vec<t>, Map<str,t>, Map<int32,t>
+// for every depth-1 container t over every scalar, for tuples, structs and the
+// enum; nested tuples and nested structs.
 func typeUniverse(depth int) []typeSpec {
 	var ts []typeSpec
 	for _, s := range scalars {
@@ -150,9 +162,9 @@ func typeUniverse(depth int) []typeSpec {
 	if depth < 2 {
 		return ts
 	}
-	reduced := []string{"int32", "str", "bool", "any", "uint8"}
+	// thorough: the inner positions range over every scalar as well
 	var d1 []typeSpec
-	for _, s := range reduced {
+	for _, s := range scalars {
 		d1 = append(d1, vec(scalarType(s)), mapOf(str, scalarType(s)))
 	}
 	d1 = append(d1, mapOf(i32, str), tuple(i32, str), declType("Pt"), declType("Sw"), declType("En"))
@@ -192,8 +204,11 @@ var reservedNames = []string{"subscribe", "metaObject", "properties", "property"
 	"terminate", "unregisterEvent", "call", "callID", "methodID", "objectID", "onDisconnect", "propertyID", "proxyService", "serviceID", "signalID", "subscribeID",
 	"activate", "onTerminate", "receive", "onPropertyChange", "proxy", "withContext", "call2", "isStatsEnabled", "enableStats", "stats", "clearStats", "isTraceEnabled", "enableTrace"}
 
+// parameter names of the type and arity atoms: not used by the generator
+const pA, pB, pC = "alpha", "beta", "gamma"
+
 func methodEcho(name, t string) action {
-	return action{kind: "method", name: name, params: []param{{"a", t}}, ret: t}
+	return action{kind: "method", name: name, params: []param{{pA, t}}, ret: t}
 }
 
 // buildAtoms returns the atoms of a tier.
@@ -208,9 +223,9 @@ func buildAtoms(tier string) []*atom {
 	// ---- types: echo method, 1-parameter signal, property
 	for _, t := range typeUniverse(depth) {
 		k := id("t")
-		as = append(as, &atom{id: k + "m", class: t.expr, leaves: t.leaves, decls: t.decls, actions: []action{methodEcho("m"+k, t.expr)}})
-		as = append(as, &atom{id: k + "s", class: t.expr, leaves: t.leaves, decls: t.decls, actions: []action{{kind: "signal", name: "s" + k, params: []param{{"a", t.expr}}}}})
-		as = append(as, &atom{id: k + "p", class: t.expr, leaves: t.leaves, decls: t.decls, actions: []action{{kind: "property", name: "p" + k, params: []param{{"a", t.expr}}}}})
+		as = append(as, &atom{id: k + "m", class: t.expr, parts: t.parts, ctor: t.ctor, decls: t.decls, actions: []action{methodEcho("m"+k, t.expr)}})
+		as = append(as, &atom{id: k + "s", class: t.expr, parts: t.parts, ctor: t.ctor, decls: t.decls, actions: []action{{kind: "signal", name: "s" + k, params: []param{{pA, t.expr}}}}})
+		as = append(as, &atom{id: k + "p", class: t.expr, parts: t.parts, ctor: t.ctor, decls: t.decls, actions: []action{{kind: "property", name: "p" + k, params: []param{{pA, t.expr}}}}})
 	}
 	// ---- action kinds and arities
 	ar := func(cls string, a action) {
@@ -221,23 +236,23 @@ func buildAtoms(tier string) []*atom {
 		if a.ret != "" {
 			lv = append(lv, a.ret)
 		}
-		as = append(as, &atom{id: id("k"), class: cls, leaves: uniqStr(lv), actions: []action{a}})
+		as = append(as, &atom{id: id("k"), class: cls, parts: uniqStr(lv), actions: []action{a}})
 	}
 	ar("method:0-params-void", action{kind: "method", name: "k0v"})
 	ar("method:0-params", action{kind: "method", name: "k0r", ret: "int32"})
-	ar("method:1-param-void", action{kind: "method", name: "k1v", params: []param{{"a", "int32"}}})
-	ar("method:2-params", action{kind: "method", name: "k2r", params: []param{{"a", "int32"}, {"b", "str"}}, ret: "str"})
-	ar("method:2-params-void", action{kind: "method", name: "k2v", params: []param{{"a", "str"}, {"b", "int32"}}})
-	ar("method:3-params", action{kind: "method", name: "k3r", params: []param{{"a", "int32"}, {"b", "str"}, {"c", "float64"}}, ret: "bool"})
-	ar("method:3-params-same-type", action{kind: "method", name: "k3s", params: []param{{"a", "int32"}, {"b", "int32"}, {"c", "int32"}}, ret: "int32"})
+	ar("method:1-param-void", action{kind: "method", name: "k1v", params: []param{{pA, "int32"}}})
+	ar("method:2-params", action{kind: "method", name: "k2r", params: []param{{pA, "int32"}, {pB, "str"}}, ret: "str"})
+	ar("method:2-params-void", action{kind: "method", name: "k2v", params: []param{{pA, "str"}, {pB, "int32"}}})
+	ar("method:3-params", action{kind: "method", name: "k3r", params: []param{{pA, "int32"}, {pB, "str"}, {pC, "float64"}}, ret: "bool"})
+	ar("method:3-params-same-type", action{kind: "method", name: "k3s", params: []param{{pA, "int32"}, {pB, "int32"}, {pC, "int32"}}, ret: "int32"})
 	ar("method:unnamed-style-params", action{kind: "method", name: "kpn", params: []param{{"P0", "int32"}, {"P1", "str"}}, ret: "int32"})
 	ar("signal:0-params", action{kind: "signal", name: "g0"})
-	ar("signal:2-params", action{kind: "signal", name: "g2", params: []param{{"a", "int32"}, {"b", "str"}}})
-	ar("signal:3-params", action{kind: "signal", name: "g3", params: []param{{"a", "str"}, {"b", "int32"}, {"c", "bool"}}})
-	ar("property:2-params", action{kind: "property", name: "q2", params: []param{{"a", "int32"}, {"b", "str"}}})
+	ar("signal:2-params", action{kind: "signal", name: "g2", params: []param{{pA, "int32"}, {pB, "str"}}})
+	ar("signal:3-params", action{kind: "signal", name: "g3", params: []param{{pA, "str"}, {pB, "int32"}, {pC, "bool"}}})
+	ar("property:2-params", action{kind: "property", name: "q2", params: []param{{pA, "int32"}, {pB, "str"}}})
 	// ---- identifier hygiene: parameter names
 	hy := func(cls, tag string, acts ...action) *atom {
-		a := &atom{id: id("h"), class: cls, hygiene: true, actions: acts, leaves: []string{"int32", "str"}}
+		a := &atom{id: id("h"), class: cls, hygiene: true, actions: acts}
 		as = append(as, a)
 		_ = tag
 		return a
@@ -246,7 +261,7 @@ func buildAtoms(tier string) []*atom {
 		for _, nm := range names {
 			k := id("x")
 			hy(cls+":"+nm, nm,
-				action{kind: "method", name: "pm" + k, params: []param{{nm, "int32"}, {"z", "str"}}, ret: "int32"},
+				action{kind: "method", name: "pm" + k, params: []param{{nm, "int32"}, {"omega", "str"}}, ret: "int32"},
 				action{kind: "signal", name: "ps" + k, params: []param{{nm, "int32"}}},
 				action{kind: "property", name: "pp" + k, params: []param{{nm, "int32"}}})
 		}
@@ -261,31 +276,53 @@ func buildAtoms(tier string) []*atom {
 	hy("param-names=collide-after-cleaning", "", action{kind: "method", name: "pcol", params: []param{{"type", "int32"}, {"type_0", "int32"}}, ret: "int32"})
 	// ---- action names
 	for _, nm := range reservedNames {
-		hy("method-name=reserved:"+nm, nm, action{kind: "method", name: nm, params: []param{{"a", "int32"}}, ret: "int32"})
+		hy("method-name=reserved:"+nm, nm, action{kind: "method", name: nm, params: []param{{pA, "int32"}}, ret: "int32"})
 	}
 	for _, nm := range goKeywords {
-		hy("method-name=keyword", nm, action{kind: "method", name: nm, params: []param{{"a", "int32"}}, ret: "int32"})
+		hy("method-name=keyword", nm, action{kind: "method", name: nm, params: []param{{pA, "int32"}}, ret: "int32"})
 	}
-	for _, nm := range []string{"_m", "m_", "a_b", "A", "Ab", "x1", "_"} {
-		hy("method-name=shape:"+nm, nm, action{kind: "method", name: nm, params: []param{{"a", "int32"}}, ret: "int32"})
+	for _, nm := range []string{"_m", "m_", "a_b", "A", "Ab", "x1", "_", "mé"} {
+		hy("method-name=shape:"+nm, nm, action{kind: "method", name: nm, params: []param{{pA, "int32"}}, ret: "int32"})
 	}
 	for _, nm := range reservedNames[:12] {
-		hy("signal-name=reserved:"+nm, nm, action{kind: "signal", name: nm, params: []param{{"a", "int32"}}})
-		hy("property-name=reserved:"+nm, nm, action{kind: "property", name: nm, params: []param{{"a", "int32"}}})
+		hy("signal-name=reserved:"+nm, nm, action{kind: "signal", name: nm, params: []param{{pA, "int32"}}})
+		hy("property-name=reserved:"+nm, nm, action{kind: "property", name: nm, params: []param{{pA, "int32"}}})
 	}
 	// ---- struct hygiene
 	for _, d := range []string{"KwFields", "CaseFields", "UsFields", "lower", "With_us", "List<int>"} {
 		k := id("d")
-		as = append(as, &atom{id: k, class: "struct-hygiene:" + d, hygiene: true, decls: []string{d}, leaves: []string{"int32", "str", "bool"},
-			actions: []action{methodEcho("sm"+k, d), {kind: "signal", name: "ss" + k, params: []param{{"a", d}}}}})
+		as = append(as, &atom{id: k, class: "struct-hygiene:" + d, hygiene: true, decls: []string{d},
+			actions: []action{methodEcho("sm"+k, d), {kind: "signal", name: "ss" + k, params: []param{{pA, d}}}}})
 	}
 	// ---- pairs of names that collide (after title-casing, or with generated helpers)
+	one := []param{{pA, "int32"}}
 	pair := func(cls string, a, b action) {
-		as = append(as, &atom{id: id("c"), class: cls, hygiene: true, actions: []action{a, b}, leaves: []string{"int32"}})
+		as = append(as, &atom{id: id("c"), class: cls, hygiene: true, actions: []action{a, b}})
 	}
-	one := []param{{"a", "int32"}}
+	if tier == "thorough" {
+		// every pair of action kinds x {same name, names equal after title-casing}
+		kinds := []string{"method", "signal", "property"}
+		mk := func(kind, name string) action {
+			a := action{kind: kind, name: name, params: one}
+			if kind == "method" {
+				a.ret = "int32"
+			}
+			return a
+		}
+		for i, k1 := range kinds {
+			for _, k2 := range kinds[i:] {
+				if k1 != k2 {
+					// (two actions of the same kind, name and signature are a
+					// duplicate declaration, not a well-formed package; overloads
+					// with different parameters are covered by "ovl")
+					pair("names-collide:"+k1+"/"+k2+"-same-name", mk(k1, "sn"+k1[:1]+k2[:1]), mk(k2, "sn"+k1[:1]+k2[:1]))
+				}
+				pair("names-collide:"+k1+"/"+k2+"-title-case", mk(k1, "tc"+k1[:1]+k2[:1]), mk(k2, "Tc"+k1[:1]+k2[:1]))
+			}
+		}
+	}
 	pair("names-collide:method/method-title-case", action{kind: "method", name: "dup", params: one, ret: "int32"}, action{kind: "method", name: "Dup", params: one, ret: "int32"})
-	pair("names-collide:method/method-overload", action{kind: "method", name: "ovl", params: one, ret: "int32"}, action{kind: "method", name: "ovl", params: []param{{"a", "str"}}, ret: "str"})
+	pair("names-collide:method/method-overload", action{kind: "method", name: "ovl", params: one, ret: "int32"}, action{kind: "method", name: "ovl", params: []param{{pA, "str"}}, ret: "str"})
 	pair("names-collide:method/signal", action{kind: "method", name: "msn", params: one, ret: "int32"}, action{kind: "signal", name: "msn", params: one})
 	pair("names-collide:method/property", action{kind: "method", name: "mpn", params: one, ret: "int32"}, action{kind: "property", name: "mpn", params: one})
 	pair("names-collide:signal/property", action{kind: "signal", name: "spn", params: one}, action{kind: "property", name: "spn", params: one})
@@ -297,7 +334,7 @@ func buildAtoms(tier string) []*atom {
 	pair("names-collide:method=property-setter", action{kind: "method", name: "setStr", params: one, ret: "int32"}, action{kind: "property", name: "str2", params: one})
 	// ---- interface names
 	for _, nm := range []string{"lowercase", "With_underscore", "Object", "ServiceZero", "Proxy", "Stub"} {
-		as = append(as, &atom{id: id("i"), class: "interface-name:" + nm, hygiene: true, itfName: nm, leaves: []string{"int32"},
+		as = append(as, &atom{id: id("i"), class: "interface-name:" + nm, hygiene: true, itfName: nm,
 			actions: []action{{kind: "method", name: "im", params: one, ret: "int32"}, {kind: "signal", name: "is", params: one}}})
 	}
 	return as
